@@ -214,6 +214,10 @@ def compute_bounded(sess: Session):
 
 
 def run(sess: Session):
+    from contracts import C12 as _c12
+    for _ob in _c12.placeholder_identity_obligations():
+        _ob.prop = PROP          # seen-sets / path sets of synsets rely on it to keep inferred placeholders apart
+        sess.check(_ob)
     sess.level = 'exploration'
     sess.explanation = ('deductive obligations for probability/IC/_initialize; bounded stand-in (exhaustive small-scope '
                         'enumeration on the real functions) for compute() and load()')
